@@ -227,7 +227,12 @@ func runCmd(args []string) int {
 	}
 	wg.Wait()
 
-	// replay
+	// replay (witness files of earlier runs of this property are removed first)
+	if old, _ := filepath.Glob(filepath.Join(verifDir, "evidence", "witness", prop+"-*.json")); old != nil {
+		for _, f := range old {
+			os.Remove(f)
+		}
+	}
 	rp := newReplayer(p, prop)
 	rp.tier = tc.name
 	exit := 0
